@@ -51,7 +51,8 @@ RULE = ('case = one sampling session = (workers 2..8, group assignment with 1..4
         'finishing one | every trial takes m=2..6 iterations (progressive evaluation), algorithm in '
         '{Random, Sweeping, regularized evolution(population 3), the same evolution '
         'started after the first feedback}, per-worker plan '
-        'of done / multi-measurement done(metadata) / feedback(reward) / skip / skip by '
+        'of done / multi-measurement done(metadata) / done before the first measurement '
+        '(rejected) then done / feedback(reward) / skip / skip by '
         'skip_on_exceptions / early-stop probe, optional end_loop, early-stopping policy or none, start mode '
         'simultaneous|staggered, schedule seed with switch probability and PCT '
         'change points). The session runs once under that schedule; the offline '
@@ -104,7 +105,7 @@ SPACE = pg.Dict(a=pg.oneof([1, 2, 3, 4]), b=pg.oneof([1, 2, 3]), c=pg.oneof([1, 
 # backend even sequentially (it compares the freshly built DNASpec with `!=`),
 # which is not a statement about schedules and is therefore not generated.
 
-ACTIONS = ['done', 'done', 'done2', 'call', 'skip', 'early', 'skipx']
+ACTIONS = ['done', 'done', 'done2', 'call', 'skip', 'early', 'skipx', 'done0']
 
 # `Feedback.skip_on_exceptions` reports the skipped trial with a warning; the
 # sessions hand the library a silent logger (public pg.logging.set_logger).
@@ -504,6 +505,19 @@ class Session:
         pre_finish()
         client_call('skip', pid, lambda: _fail_inside_skip_scope(fb), 'skip_on_exceptions')
         return
+      if action == 'done0':
+        # done() before any measurement was reported: documented ValueError, the
+        # trial stays pending (it completes the trial if a co-worker has reported
+        # one meanwhile; a no-op if a co-worker has finished it).
+        log.append((stamp(), 'call', 'done', pid))
+        try:
+          fb.done()
+          log.append((stamp(), 'ret', 'done', pid, 'ok', None))
+        except ValueError:
+          log.append((stamp(), 'ret', 'done', pid, 'rejected'))
+        except Exception as e:  # pylint: disable=broad-except
+          log.append((stamp(), 'ret', 'done', pid, 'raise', type(e).__name__,
+                      traceback.format_exc()[-6000:], 'done-before-measurement'))
       if client_call('measure', pid, lambda: fb.add_measurement(reward, step=1),
                      'add_measurement'):
         pre_finish()
@@ -976,7 +990,8 @@ def check_session(sess, counters):
 
   # -- co-workers hold the same pending trial ------------------------------------------------
   c['check:group-hold'] += 1
-  first_finish = {p: min(f[0] for f in fin) for p, fin in finish.items() if fin}
+  first_finish = {p: min(f[0] for f in fin if f[4] != 'rejected')
+                  for p, fin in finish.items() if any(f[4] != 'rejected' for f in fin)}
   holds = collections.defaultdict(list)      # group -> [(from, to, worker, pid, next-call stamp)]
   inf = float('inf')
   for p, gs in got.items():
